@@ -108,7 +108,7 @@ func (d *PathDecoder) completionAtPos(ctx context.Context, body *hclsyntax.Body,
 			}
 
 			for i, labelRange := range block.LabelRanges {
-				if labelRange.ContainsPos(pos) {
+				if labelRange.ContainsPos(pos) || isAtEndOfBareLabel(block, i, pos) {
 					if i+1 > len(blockSchema.Labels) {
 						return lang.ZeroCandidates(), &PositionalError{
 							Filename: filename,
@@ -261,8 +261,20 @@ func (d *PathDecoder) labelTokenRangeAtPos(filename string, pos hcl.Pos) (hcl.Ra
 	return prefixRng, nil
 }
 
+// isAtEndOfBareLabel reports whether pos is right behind a label written
+// as an identifier. (The range of a quoted label includes its quotes,
+// so the end of its text is inside the range.)
+func isAtEndOfBareLabel(block *hclsyntax.Block, i int, pos hcl.Pos) bool {
+	rng := block.LabelRanges[i]
+	return rng.End.Byte == pos.Byte && rng.End.Byte-rng.Start.Byte == len(block.Labels[i])
+}
+
 func labelTokenRangeAtPos(tokens hclsyntax.Tokens, pos hcl.Pos) (hcl.Range, error) {
 	for i, t := range tokens {
+		if t.Type == hclsyntax.TokenIdent && t.Range.End.Byte == pos.Byte {
+			// end of a label written as an identifier
+			return t.Range, nil
+		}
 		if t.Range.ContainsPos(pos) {
 			if t.Type == hclsyntax.TokenQuotedLit || t.Type == hclsyntax.TokenIdent {
 				return t.Range, nil
